@@ -712,6 +712,11 @@ func (r *FnRun) invoke(st *State, fr *frame, instr ssa.Instruction, c *ssa.CallC
 			st.assume(sEq(res[0].S, "("+fn+" "+recv.Tag+" "+recv.Val+")"))
 		} else if len(res) == 1 && res[0].K == KBool {
 			st.assume(sEq(res[0].S, sEq("("+fn+" "+recv.Tag+" "+recv.Val+")", "1")))
+		} else if len(res) == 1 && res[0].K == KIface {
+			fnt := mangle("pure:" + fc.Name + "#tag")
+			r.eng.declare("(declare-fun " + fnt + " (Int Int) Int)")
+			st.assume(sEq(res[0].Tag, "("+fnt+" "+recv.Tag+" "+recv.Val+")"))
+			st.assume(sEq(res[0].Val, "("+fn+" "+recv.Tag+" "+recv.Val+")"))
 		}
 		vars := bindNames(fc, nil, sig, true, args)
 		vars["recv"] = recv
